@@ -185,6 +185,9 @@ Proof. intros sc su HS. unfold m_clear. sset. split; auto. apply Sim_cache; auto
 Lemma sim_var_get y slot : simM y (m_var_get slot) (m_var_get slot).
 Proof. intros sc su HS. unfold m_var_get. sset. rewrite (sim_vars _ _ _ HS). auto. Qed.
 
+Lemma sim_length y r : simM y (m_length r) (m_length r).
+Proof. intros sc su HS. unfold m_length. sset. rewrite (sim_vars _ _ _ HS). auto. Qed.
+
 Lemma sim_var_put y slot v : simM y (m_var_put slot v) (m_var_put slot v).
 Proof.
   intros sc su HS. unfold m_var_put. sset. split; auto.
@@ -241,10 +244,10 @@ Proof.
     try (now apply sub_skip); try (unfold writes_of in *; cbn [filter]; assumption).
 Qed.
 
-Lemma entry_new y d n r a bs :
-  node_at y n = Some (NReg r) -> cacheable r = true -> 0 <= g_len r ->
-  (exists vs, address r vs = Ok a) -> peek d a (g_len r) = Some bs ->
-  entry_ok y d ((n, a, g_len r), bs).
+Lemma entry_new y d n r a l bs :
+  node_at y n = Some (NReg r) -> cacheable r = true -> 0 <= l ->
+  (exists vs, address r vs = Ok a /\ len_of r vs = l) -> peek d a l = Some bs ->
+  entry_ok y d ((n, a, l), bs).
 Proof.
   intros Hn Hc Hl Ha Hp. split; unfold key_node, key_addr, key_len; cbn [fst snd]; auto.
   exists r. auto.
@@ -254,43 +257,53 @@ Lemma Forall_put y d k bs c :
   entry_ok y d (k, bs) -> Forall (entry_ok y d) c -> Forall (entry_ok y d) (c_put true k bs c).
 Proof. intros H1 H2. unfold c_put. constructor; auto. unfold c_remove. now apply Forall_filter. Qed.
 
-Lemma sim_read_and_cache y n r a :
-  node_at y n = Some (NReg r) -> 0 <= g_len r -> (exists vs, address r vs = Ok a) ->
-  simM y (m_read_and_cache true n r a) (m_read_and_cache false n r a).
+Lemma sim_read_and_cache y n r a l :
+  node_at y n = Some (NReg r) -> 0 <= l -> (exists vs, address r vs = Ok a /\ len_of r vs = l) ->
+  simM y (m_read_and_cache true n r a l) (m_read_and_cache false n r a l).
 Proof.
   intros Hn Hl Ha sc su HS. unfold m_read_and_cache.
   rewrite !cdev_read_peek. rewrite (peek_sim y sc su) by auto.
-  destruct (peek (c_dev sc) a (g_len r)) as [bs|] eqn:Hp; sset.
+  destruct (peek (c_dev sc) a l) as [bs|] eqn:Hp; sset.
   - split; auto. unfold c_put at 2. rewrite (sim_empty _ _ _ HS).
     destruct (cacheable r) eqn:Hc; apply Sim_read; auto; [|apply HS].
-    apply Forall_put; [|apply HS]. now apply entry_new.
+    apply Forall_put; [|apply HS]. now apply (entry_new y _ n r a l bs).
   - split; auto.
-    replace (set_dev sc (logged (c_dev sc) (RdAcc a (g_len r))))
-      with (set_cache (set_dev sc (logged (c_dev sc) (RdAcc a (g_len r)))) (c_cache sc)) by reflexivity.
-    replace (set_dev su (logged (c_dev su) (RdAcc a (g_len r))))
-      with (set_cache (set_dev su (logged (c_dev su) (RdAcc a (g_len r)))) []).
+    replace (set_dev sc (logged (c_dev sc) (RdAcc a l)))
+      with (set_cache (set_dev sc (logged (c_dev sc) (RdAcc a l))) (c_cache sc)) by reflexivity.
+    replace (set_dev su (logged (c_dev su) (RdAcc a l)))
+      with (set_cache (set_dev su (logged (c_dev su) (RdAcc a l))) []).
     + apply Sim_read; auto. apply HS.
     + unfold set_cache, set_dev. sset. now rewrite (sim_empty _ _ _ HS).
 Qed.
 
+Lemma bind_address {B} r (f : Z -> M B) s :
+  mbind (m_address r) f s =
+  match address r (c_vars s) with Ok a => f a s | Err e => (Err e, s) | Panic => (Panic, s) end.
+Proof. unfold mbind, m_address. destruct (address r (c_vars s)); reflexivity. Qed.
+
+Lemma bind_length {B} r (f : Z -> M B) s :
+  mbind (m_length r) f s = f (len_of r (c_vars s)) s.
+Proof. reflexivity. Qed.
+
 Lemma sim_cached_bytes y n r :
   node_at y n = Some (NReg r) -> simM y (m_cached_bytes true n r) (m_cached_bytes false n r).
 Proof.
-  intros Hn sc su HS. unfold m_cached_bytes.
-  destruct (g_len r <? 0) eqn:Hlen; [now apply simM_lift|]. apply Z.ltb_ge in Hlen.
+  intros Hn sc su HS. unfold m_cached_bytes. rewrite !bind_length. rewrite <- (sim_vars _ _ _ HS).
+  set (l := len_of r (c_vars sc)). assert (El : len_of r (c_vars sc) = l) by reflexivity.
+  destruct (l <? 0) eqn:Hlen; [now apply simM_lift|]. apply Z.ltb_ge in Hlen.
   unfold mbind, m_address. rewrite <- (sim_vars _ _ _ HS).
   destruct (address r (c_vars sc)) as [a|e|] eqn:Ha; sset; auto.
   rewrite (sim_empty _ _ _ HS). cbn [c_find].
-  destruct (c_find (n, a, g_len r) (c_cache sc)) as [bs|] eqn:Hf.
+  destruct (c_find (n, a, l) (c_cache sc)) as [bs|] eqn:Hf.
   - apply c_find_In in Hf.
     pose proof (sim_inv _ _ _ HS) as Hi. unfold Inv in Hi. rewrite Forall_forall in Hi.
     destruct (Hi _ Hf) as [_ Hp]. unfold key_addr, key_len in Hp. cbn [fst snd] in Hp.
     unfold m_read_and_cache. rewrite cdev_read_peek, (peek_sim y sc su), Hp by auto. sset.
     split; auto. unfold c_put. rewrite (sim_empty _ _ _ HS).
-    replace (set_cache (set_dev su (logged (c_dev su) (RdAcc a (g_len r)))) (if cacheable r then [] else []))
-      with (set_cache (set_dev su (logged (c_dev su) (RdAcc a (g_len r)))) []) by (destruct (cacheable r); reflexivity).
-    replace (set_cache (set_dev su (logged (c_dev su) (RdAcc a (g_len r)))) [])
-      with (set_dev su (logged (c_dev su) (RdAcc a (g_len r)))).
+    replace (set_cache (set_dev su (logged (c_dev su) (RdAcc a l))) (if cacheable r then [] else []))
+      with (set_cache (set_dev su (logged (c_dev su) (RdAcc a l))) []) by (destruct (cacheable r); reflexivity).
+    replace (set_cache (set_dev su (logged (c_dev su) (RdAcc a l))) [])
+      with (set_dev su (logged (c_dev su) (RdAcc a l))).
     + now apply Sim_hit.
     + unfold set_cache, set_dev. sset. now rewrite (sim_empty _ _ _ HS).
   - apply sim_read_and_cache; eauto.
@@ -300,10 +313,12 @@ Lemma sim_raw_read y n r blen :
   node_at y n = Some (NReg r) -> simM y (m_raw_read true n r blen) (m_raw_read false n r blen).
 Proof.
   intros Hn sc su HS. unfold m_raw_read.
-  destruct (g_len r <? 0) eqn:Hlen; [now apply simM_lift|]. apply Z.ltb_ge in Hlen.
-  unfold mbind, m_address. rewrite <- (sim_vars _ _ _ HS).
+  rewrite !bind_address. rewrite <- (sim_vars _ _ _ HS).
   destruct (address r (c_vars sc)) as [a|e|] eqn:Ha; sset; auto.
-  destruct (negb (blen =? g_len r)); [now apply simM_lift|].
+  rewrite !bind_length. rewrite <- (sim_vars _ _ _ HS).
+  set (l := len_of r (c_vars sc)). assert (El : len_of r (c_vars sc) = l) by reflexivity.
+  destruct (l <? 0) eqn:Hlen; [now apply simM_lift|]. apply Z.ltb_ge in Hlen.
+  destruct (negb (blen =? l)); [now apply simM_lift|].
   apply sim_read_and_cache; eauto.
 Qed.
 
@@ -350,17 +365,17 @@ Proof. intros H. unfold invals_of. now rewrite H. Qed.
 (* what a successful write of register n at address a does to a coherent entry that n does not
    invalidate: either it is the written key itself, or it stays coherent *)
 Lemma entry_after_write y n r vs a buf d e :
-  Declared y -> node_at y n = Some (NReg r) -> address r vs = Ok a -> zlen buf = g_len r ->
+  Declared y -> node_at y n = Some (NReg r) -> address r vs = Ok a -> zlen buf = len_of r vs ->
   in_image d a (zlen buf) = true ->
   entry_ok y d e -> zmem n (invals_of y (key_node (fst e))) = false ->
-  fst e = (n, a, g_len r) \/ entry_ok y (written d a buf) e.
+  fst e = (n, a, len_of r vs) \/ entry_ok y (written d a buf) e.
 Proof.
-  intros HD Hn Ha Hlen Him [[r' [Hm [Hl' [Hc [H0 [vs' Ha']]]]]] Hp] Hz.
+  intros HD Hn Ha Hlen Him [[r' [Hm [Hc [H0 [vs' [Ha' Hl']]]]]] Hp] Hz.
   destruct e as [[[m a'] l'] bs]. unfold key_node, key_addr, key_len in *. cbn [fst snd] in *.
   destruct (Z_lt_dec a (a' + l')) as [L1|L1]; [destruct (Z_lt_dec a' (a + zlen buf)) as [L2|L2]|].
-  - assert (Hov : overlap a (g_len r) a' (g_len r')) by (unfold overlap; lia).
-    destruct (HD n m r r' vs vs' a a' Hn Hm Ha Ha' Hov) as [[-> ->] | Hin].
-    + left. rewrite Hn in Hm. injection Hm as <-. now rewrite Hl'.
+  - assert (Hov : overlap a (len_of r vs) a' (len_of r' vs')) by (unfold overlap; lia).
+    destruct (HD n m r r' vs vs' a a' Hn Hm Ha Ha' Hov) as [[-> [-> El]] | Hin].
+    + left. rewrite El, Hl'. reflexivity.
     + exfalso. rewrite (invals_of_reg _ _ _ Hm) in Hz.
       apply zmem_In in Hin. congruence.
   - right. split; [exists r'; eauto 10|]. unfold key_addr, key_len. cbn [fst snd].
@@ -378,32 +393,32 @@ Proof.
   apply filter_In in He as [_ He]. now apply negb_true_iff in He.
 Qed.
 
-Definition write_tail (on : bool) (n : Z) (r : creg) (a : Z) (buf : list Z) : M unit :=
+Definition write_tail (on : bool) (n : Z) (r : creg) (a l : Z) (buf : list Z) : M unit :=
   let! _ := m_dev_write a buf in
-  if g_mode r =? WT then m_put on (n, a, g_len r) buf
+  if g_mode r =? WT then m_put on (n, a, l) buf
   else if (g_mode r =? WA) && true then m_inval_of n
   else mret tt.
 
-Lemma sim_write_tail y n r a buf sc su :
-  Declared y -> node_at y n = Some (NReg r) -> 0 <= g_len r -> zlen buf = g_len r ->
-  address r (c_vars sc) = Ok a -> Sim y sc su -> NoDep y n (c_cache sc) ->
-  fst (write_tail true n r a buf sc) = fst (write_tail false n r a buf su) /\
-  Sim y (snd (write_tail true n r a buf sc)) (snd (write_tail false n r a buf su)).
+Lemma sim_write_tail y n r a l buf sc su :
+  Declared y -> node_at y n = Some (NReg r) -> 0 <= l -> zlen buf = l ->
+  address r (c_vars sc) = Ok a -> len_of r (c_vars sc) = l -> Sim y sc su -> NoDep y n (c_cache sc) ->
+  fst (write_tail true n r a l buf sc) = fst (write_tail false n r a l buf su) /\
+  Sim y (snd (write_tail true n r a l buf sc)) (snd (write_tail false n r a l buf su)).
 Proof.
-  intros HD Hn H0 Hlen Ha HS Hnd. unfold write_tail, mbind, m_dev_write.
+  intros HD Hn H0 Hlen Ha El HS Hnd. unfold write_tail, mbind, m_dev_write.
   rewrite !cdev_write_eq, (wok_sim y sc su) by auto.
   destruct (wok (c_dev sc) a buf) eqn:Hok; sset.
   2:{ split; auto. now apply Sim_wfail. }
   assert (Him : in_image (c_dev sc) a (zlen buf) = true).
   { unfold wok in Hok. now apply andb_true_iff in Hok. }
   pose proof (sim_inv _ _ _ HS) as Hi. unfold Inv in Hi.
-  assert (Hnew : entry_ok y (written (c_dev sc) a buf) ((n, a, g_len r), buf) \/ cacheable r = false).
-  { destruct (cacheable r) eqn:Hc; auto. left. apply entry_new; eauto.
+  assert (Hnew : entry_ok y (written (c_dev sc) a buf) ((n, a, l), buf) \/ cacheable r = false).
+  { destruct (cacheable r) eqn:Hc; auto. left. apply (entry_new y _ n r a l buf); eauto.
     rewrite <- Hlen. now apply peek_written_same. }
-  assert (Hold : forall e, In e (c_cache sc) -> fst e <> (n, a, g_len r) ->
+  assert (Hold : forall e, In e (c_cache sc) -> fst e <> (n, a, l) ->
                            entry_ok y (written (c_dev sc) a buf) e).
   { intros e He Hne. unfold NoDep in Hnd. rewrite Forall_forall in Hi, Hnd.
-    destruct (entry_after_write y n r (c_vars sc) a buf (c_dev sc) e) as [E|E]; auto. contradiction. }
+    destruct (entry_after_write y n r (c_vars sc) a buf (c_dev sc) e) as [E|E]; auto; congruence. }
   destruct (g_mode r =? WT) eqn:Hwt.
   - unfold m_put. sset. split; auto. unfold c_put at 2. rewrite (sim_empty _ _ _ HS).
     apply Sim_written; auto. unfold c_put. constructor.
@@ -424,7 +439,7 @@ Proof.
       2:{ unfold set_cache, set_dev. sset. now rewrite (sim_empty _ _ _ HS). }
       apply Sim_written; auto. apply Forall_forall. intros e He.
       apply Hold; auto. intros E.
-      rewrite Forall_forall in Hi. destruct (Hi e He) as [[r' [Hm [_ [Hc _]]]] _].
+      rewrite Forall_forall in Hi. destruct (Hi e He) as [[r' [Hm [Hc _]]] _].
       rewrite E in Hm. unfold key_node in Hm. cbn [fst] in Hm. rewrite Hn in Hm. injection Hm as <-.
       unfold cacheable in Hc. rewrite Hwt, Hwa in Hc. discriminate.
 Qed.
@@ -433,29 +448,26 @@ Lemma bind_inval_by {B} y n (f : unit -> M B) s :
   mbind (m_inval_by y n) f s = f tt (set_cache s (c_inval_by y n (c_cache s))).
 Proof. reflexivity. Qed.
 
-Lemma bind_address {B} r (f : Z -> M B) s :
-  mbind (m_address r) f s =
-  match address r (c_vars s) with Ok a => f a s | Err e => (Err e, s) | Panic => (Panic, s) end.
-Proof. unfold mbind, m_address. destruct (address r (c_vars s)); reflexivity. Qed.
-
 Lemma sim_write_and_cache y n r buf :
   Declared y -> node_at y n = Some (NReg r) ->
   simM y (m_write_and_cache true cur y n r buf) (m_write_and_cache false cur y n r buf).
 Proof.
   intros HD Hn sc su HS. unfold m_write_and_cache.
-  destruct (g_len r <? 0) eqn:Hlen; [now apply simM_lift|]. apply Z.ltb_ge in Hlen.
   cbn [fix_raw fix_wa cur]. rewrite !bind_inval_by.
   pose proof (sim_inval_by y n sc su HS) as [_ HS1]. unfold m_inval_by in HS1. sset.
   pose proof (NoDep_inval_by y n (c_cache sc)) as Hnd.
   set (sc1 := set_cache sc (c_inval_by y n (c_cache sc))) in *.
   set (su1 := set_cache su (c_inval_by y n (c_cache su))) in *.
-  destruct (negb (zlen buf =? g_len r)) eqn:Hbl; [now apply simM_lift|].
+  rewrite !bind_length. replace (c_vars su1) with (c_vars sc1) by apply HS1.
+  set (l := len_of r (c_vars sc1)). assert (El : len_of r (c_vars sc1) = l) by reflexivity.
+  destruct (l <? 0) eqn:Hlen; [now apply simM_lift|]. apply Z.ltb_ge in Hlen.
+  destruct (negb (zlen buf =? l)) eqn:Hbl; [now apply simM_lift|].
   apply negb_false_iff, Z.eqb_eq in Hbl.
   rewrite !bind_address. replace (c_vars su1) with (c_vars sc1) by apply HS1.
   destruct (address r (c_vars sc1)) as [a|e|] eqn:Ha; sset; auto.
   rewrite !bind_inval_by.
   pose proof (sim_inval_by y (y_port y) sc1 su1 HS1) as [_ HS2]. unfold m_inval_by in HS2. sset.
-  apply (sim_write_tail y n r a buf); auto.
+  apply (sim_write_tail y n r a l buf); auto.
   unfold sc1. sset. unfold c_inval_by at 1. apply Forall_filter. exact Hnd.
 Qed.
 
@@ -470,7 +482,7 @@ Hypothesis HD : Declared y.
 
 Ltac sim1 :=
   first [ apply simM_lift | apply simM_ret | apply sim_inval_by | apply sim_inval_of
-        | apply sim_var_get | apply sim_var_put
+        | apply sim_var_get | apply sim_var_put | apply sim_length
         | (apply sim_cached_bytes; assumption) | (apply sim_write_and_cache; assumption)
         | (apply sim_raw_read; assumption) ].
 Ltac sim := repeat first [ sim1 | (apply simM_bind; [|intros]) ].
@@ -509,8 +521,8 @@ Proof. intros Hn. unfold m_string_value. sim. Qed.
 Lemma sim_string_set n r x :
   node_at y n = Some (NReg r) -> simM y (m_string_set true cur y n r x) (m_string_set false cur y n r x).
 Proof.
-  intros Hn. unfold m_string_set.
-  destruct (negb (is_ascii x) || has_nul x); [sim|]. destruct (g_len r <? zlen x); sim.
+  intros Hn. unfold m_string_set. apply simM_bind; [apply sim_length|intros l].
+  destruct (negb (is_ascii x) || has_nul x); [sim|]. destruct (l <? zlen x); sim.
 Qed.
 
 Lemma sim_ival fuel : forall n, simM y (m_ival fuel true y n) (m_ival fuel false y n).
@@ -664,7 +676,7 @@ Lemma entry_cacheable y s n a l bs r :
   Inv y s -> In ((n, a, l), bs) (c_cache s) -> node_at y n = Some (NReg r) -> cacheable r = true.
 Proof.
   intros H Hin Hn. unfold Inv in H. rewrite Forall_forall in H.
-  destruct (H _ Hin) as [[r' [Hm [_ [Hc _]]]] _]. unfold key_node in Hm. cbn [fst] in Hm.
+  destruct (H _ Hin) as [[r' [Hm [Hc _]]] _]. unfold key_node in Hm. cbn [fst] in Hm.
   rewrite Hn in Hm. injection Hm as <-. exact Hc.
 Qed.
 
@@ -676,35 +688,41 @@ Proof.
   eapply entry_cacheable; eauto. now apply inv_run.
 Qed.
 
-Lemma find_none_uncacheable y s n r a :
+Lemma find_none_uncacheable y s n r a l :
   Inv y s -> node_at y n = Some (NReg r) -> cacheable r = false ->
-  c_find (n, a, g_len r) (c_cache s) = None.
+  c_find (n, a, l) (c_cache s) = None.
 Proof.
   intros H Hn Hc. destruct (c_find _ _) as [bs|] eqn:Hf; auto.
-  apply c_find_In in Hf. rewrite (entry_cacheable y s n a (g_len r) bs r H Hf Hn) in Hc. discriminate.
+  apply c_find_In in Hf. rewrite (entry_cacheable y s n a l bs r H Hf Hn) in Hc. discriminate.
 Qed.
 
-Lemma log_read_and_cache on n r a s :
-  d_log (c_dev (snd (m_read_and_cache on n r a s))) = RdAcc a (g_len r) :: d_log (c_dev s).
+Lemma log_read_and_cache on n r a l s :
+  d_log (c_dev (snd (m_read_and_cache on n r a l s))) = RdAcc a l :: d_log (c_dev s).
 Proof.
   unfold m_read_and_cache. rewrite cdev_read_peek.
-  destruct (peek (c_dev s) a (g_len r)); reflexivity.
+  destruct (peek (c_dev s) a l); reflexivity.
 Qed.
 
 Lemma nocache_bytes_read y s n r a :
-  Inv y s -> node_at y n = Some (NReg r) -> cacheable r = false -> 0 <= g_len r ->
+  Inv y s -> node_at y n = Some (NReg r) -> cacheable r = false -> 0 <= len_of r (c_vars s) ->
   address r (c_vars s) = Ok a ->
-  d_log (c_dev (snd (m_cached_bytes true n r s))) = RdAcc a (g_len r) :: d_log (c_dev s).
+  d_log (c_dev (snd (m_cached_bytes true n r s))) = RdAcc a (len_of r (c_vars s)) :: d_log (c_dev s) /\
+  c_vars (snd (m_cached_bytes true n r s)) = c_vars s.
 Proof.
-  intros H Hn Hc Hl Ha. unfold m_cached_bytes.
-  replace (g_len r <? 0) with false by (symmetry; apply Z.ltb_ge; lia).
-  rewrite bind_address, Ha, (find_none_uncacheable y s n r a) by auto.
-  apply log_read_and_cache.
+  intros H Hn Hc Hl Ha. unfold m_cached_bytes. rewrite bind_length.
+  replace (len_of r (c_vars s) <? 0) with false by (symmetry; apply Z.ltb_ge; lia).
+  rewrite bind_address, Ha, (find_none_uncacheable y s n r a _) by auto.
+  split; [apply log_read_and_cache|].
+  unfold m_read_and_cache. rewrite cdev_read_peek. destruct (peek _ _ _); reflexivity.
 Qed.
 
 Lemma snd_bind_lift {A B} (m : M A) (g : A -> outcome B) s :
   snd (mbind m (fun x => mlift (g x)) s) = snd (m s).
 Proof. unfold mbind, mlift. destruct (m s) as [[x|e|] s']; reflexivity. Qed.
+
+Lemma snd_bind_length_lift {A B} (m : M A) r (g : A -> Z -> outcome B) s :
+  snd (mbind m (fun x => mbind (m_length r) (fun l => mlift (g x l))) s) = snd (m s).
+Proof. unfold mbind, mlift, m_length. destruct (m s) as [[x|e|] s']; reflexivity. Qed.
 
 Lemma snd_bind_ret {A B} (m : M A) (g : A -> B) s :
   snd (mbind m (fun x => mret (g x)) s) = snd (m s).
@@ -716,19 +734,19 @@ Lemma snd_pr_str m s : snd (pr_str m s) = snd (m s).
 Proof. unfold pr_str. destruct (m s). reflexivity. Qed.
 
 Lemma nocache_value_reads y s n r a :
-  Inv y s -> node_at y n = Some (NReg r) -> cacheable r = false -> 0 <= g_len r ->
+  Inv y s -> node_at y n = Some (NReg r) -> cacheable r = false -> 0 <= len_of r (c_vars s) ->
   In (g_kind r) [0; 1; 2; 4] -> address r (c_vars s) = Ok a ->
-  d_log (c_dev (snd (step true cur y (OpValue n) s))) = RdAcc a (g_len r) :: d_log (c_dev s).
+  d_log (c_dev (snd (step true cur y (OpValue n) s))) = RdAcc a (len_of r (c_vars s)) :: d_log (c_dev s).
 Proof.
   intros H Hn Hc Hl Hk Ha. cbn [step]. rewrite Hn.
-  pose proof (nocache_bytes_read y s n r a H Hn Hc Hl Ha) as P.
+  pose proof (nocache_bytes_read y s n r a H Hn Hc Hl Ha) as [P _].
   cbn [In] in Hk. destruct Hk as [K|[K|[K|[K|[]]]]]; rewrite <- K; cbn [Z.eqb orb Pos.eqb].
   - rewrite snd_pr_z. unfold fuel_of. cbn [m_ival]. rewrite Hn, <- K. cbn [Z.eqb].
     unfold m_intreg_value. now rewrite snd_bind_lift.
   - rewrite snd_pr_z, snd_bind_ret. unfold m_float_value. now rewrite snd_bind_lift.
   - rewrite snd_pr_str. unfold m_string_value. now rewrite (snd_bind_ret _ until_nul).
   - rewrite snd_pr_z. unfold fuel_of. cbn [m_ival]. rewrite Hn, <- K. cbn [Z.eqb Pos.eqb].
-    unfold m_masked_value. rewrite snd_bind_lift. unfold m_intreg_value. now rewrite snd_bind_lift.
+    unfold m_masked_value. rewrite snd_bind_length_lift. unfold m_intreg_value. now rewrite snd_bind_lift.
 Qed.
 
 (* ---- a register's own write is visible ------------------------------------------------------------------ *)
@@ -748,35 +766,41 @@ Proof.
   destruct (f (k', bs)); auto. cbn [c_find]. rewrite Hk. auto.
 Qed.
 
+Lemma bind_lift {A B} (x : outcome A) (f : A -> M B) s :
+  mbind (mlift x) f s = match x with Ok a => f a s | Err e => (Err e, s) | Panic => (Panic, s) end.
+Proof. unfold mbind, mlift. destruct x; reflexivity. Qed.
+
 Lemma own_write_visible y n r buf s s1 :
   Inv y s -> node_at y n = Some (NReg r) ->
   m_write_and_cache true cur y n r buf s = (Ok tt, s1) ->
   fst (m_cached_bytes true n r s1) = Ok buf.
 Proof.
-  intros HI Hn. unfold m_write_and_cache, m_cached_bytes.
-  destruct (g_len r <? 0) eqn:Hlen; [discriminate|]. apply Z.ltb_ge in Hlen.
-  cbn [fix_raw fix_wa cur]. rewrite !bind_inval_by.
-  destruct (negb (zlen buf =? g_len r)) eqn:Hbl; [discriminate|].
+  intros HI Hn Hw. unfold m_write_and_cache in Hw. cbn [fix_raw fix_wa cur] in Hw.
+  rewrite bind_inval_by, bind_length in Hw. sset.
+  remember (len_of r (c_vars s)) as l eqn:El.
+  destruct (l <? 0) eqn:Hlen; [discriminate Hw|].
+  destruct (negb (zlen buf =? l)) eqn:Hbl; [discriminate Hw|].
   apply negb_false_iff, Z.eqb_eq in Hbl.
-  rewrite !bind_address. sset.
-  destruct (address r (c_vars s)) as [a|e|] eqn:Ha; try discriminate.
-  rewrite bind_inval_by. unfold mbind, m_dev_write. rewrite cdev_write_eq. sset.
-  set (c2 := c_inval_by y (y_port y) (c_inval_by y n (c_cache s))).
-  destruct (wok (c_dev s) a buf) eqn:Hok; [|discriminate].
+  rewrite bind_address in Hw. sset.
+  destruct (address r (c_vars s)) as [a|e|] eqn:Ha; try discriminate Hw.
+  rewrite bind_inval_by in Hw. unfold mbind, m_dev_write in Hw. rewrite cdev_write_eq in Hw. sset.
+  set (c2 := c_inval_by y (y_port y) (c_inval_by y n (c_cache s))) in *.
+  destruct (wok (c_dev s) a buf) eqn:Hok; [|discriminate Hw].
   assert (Him : in_image (c_dev s) a (zlen buf) = true).
   { unfold wok in Hok. now apply andb_true_iff in Hok. }
-  assert (Hpk : peek (written (c_dev s) a buf) a (g_len r) = Some buf).
+  assert (Hpk : peek (written (c_dev s) a buf) a l = Some buf).
   { rewrite <- Hbl. now apply peek_written_same. }
-  destruct (g_mode r =? WT) eqn:Hwt; [|destruct (g_mode r =? WA) eqn:Hwa; cbn [andb]].
-  - unfold m_put. sset. intros E. injection E as <-. sset. rewrite Ha.
+  unfold m_cached_bytes. rewrite bind_length.
+  destruct (g_mode r =? WT) eqn:Hwt; [|destruct (g_mode r =? WA) eqn:Hwa; cbn [andb] in Hw].
+  - unfold m_put in Hw. injection Hw as <-. sset. rewrite <- El, Hlen, bind_address. sset. rewrite Ha.
     cbn [c_find]. now rewrite key_eqb_refl.
-  - unfold m_inval_of. sset. intros E. injection E as <-. sset. rewrite Ha.
+  - unfold m_inval_of in Hw. injection Hw as <-. sset. rewrite <- El, Hlen, bind_address. sset. rewrite Ha.
     rewrite c_find_inval_of. unfold m_read_and_cache. rewrite cdev_read_peek. sset. now rewrite Hpk.
-  - unfold mret. intros E. injection E as <-. sset. rewrite Ha.
+  - unfold mret in Hw. injection Hw as <-. sset. rewrite <- El, Hlen, bind_address. sset. rewrite Ha.
     assert (Hnc : cacheable r = false) by (unfold cacheable; now rewrite Hwt, Hwa).
     unfold c2, c_inval_by.
     rewrite c_find_filter_none
-      by (apply c_find_filter_none; now apply (find_none_uncacheable y s n r a)).
+      by (apply c_find_filter_none; now apply (find_none_uncacheable y s n r a l)).
     unfold m_read_and_cache. rewrite cdev_read_peek. sset. now rewrite Hpk.
 Qed.
 
@@ -790,15 +814,14 @@ Proof. intros H. unfold Inv. cbn [set_cache c_dev c_cache]. unfold c_inval_by. n
 Lemma own_write_intreg y n r x s :
   Inv y s -> node_at y n = Some (NReg r) -> g_kind r = 0 ->
   fst (step true cur y (OpSet n [x]) s) = sh_unit (Ok tt) ->
-  exists buf, bytes_from_int x (g_len r) (g_endian r) (g_sign r) = Ok buf /\
+  exists buf, bytes_from_int x (len_of r (c_vars s)) (g_endian r) (g_sign r) = Ok buf /\
     fst (step true cur y (OpValue n) (snd (step true cur y (OpSet n [x]) s))) =
     sh_z (int_from_slice buf (g_endian r) (g_sign r)).
 Proof.
   intros HI Hn Hk. cbn [step]. rewrite Hn, Hk. cbn [Z.eqb orb].
   unfold fuel_of. cbn [m_iset m_ival]. rewrite Hn, Hk. cbn [Z.eqb].
-  unfold pr_unit, pr_z, m_intreg_set, m_intreg_value. rewrite bind_inval_by.
-  unfold mbind at 1 2 3. unfold mlift at 1 2 3.
-  destruct (bytes_from_int x (g_len r) (g_endian r) (g_sign r)) as [buf|e|] eqn:Hb;
+  unfold pr_unit, pr_z, m_intreg_set, m_intreg_value. rewrite bind_inval_by, bind_length, bind_lift. sset.
+  destruct (bytes_from_int x (len_of r (c_vars s)) (g_endian r) (g_sign r)) as [buf|e|] eqn:Hb;
     cbn [fst snd]; try (intros H; apply sh_unit_ok_inv in H; discriminate H).
   destruct (m_write_and_cache true cur y n r buf _) as [o s1] eqn:Hw. cbn [fst snd].
   intros H. apply sh_unit_ok_inv in H. subst o.
@@ -811,7 +834,7 @@ Qed.
 (* ... and so the value written: set_value v; value = v for every v the register can hold *)
 Lemma own_write_intreg_value y n r x s :
   Inv y s -> node_at y n = Some (NReg r) -> g_kind r = 0 ->
-  supported_int_len (g_len r) = true -> int_in_range (g_len r) (g_sign r) x ->
+  supported_int_len (len_of r (c_vars s)) = true -> int_in_range (len_of r (c_vars s)) (g_sign r) x ->
   fst (step true cur y (OpSet n [x]) s) = sh_unit (Ok tt) ->
   fst (step true cur y (OpValue n) (snd (step true cur y (OpSet n [x]) s))) = sh_z (Ok x).
 Proof.
@@ -832,12 +855,15 @@ Proof.
   rewrite forallb_forall in H1, H2.
   intros n m rn rm vs vs' a a' Hn Hm Ha Ha' [O1 O2].
   apply node_at_nth in Hn as [Hn0 Hn]. apply node_at_nth in Hm as [Hm0 Hm].
-  assert (In1 : g_index rn = []).
-  { specialize (H1 _ (nth_error_In _ _ Hn)). cbn [no_index] in H1. destruct (g_index rn); [auto|discriminate]. }
-  assert (In2 : g_index rm = []).
-  { specialize (H1 _ (nth_error_In _ _ Hm)). cbn [no_index] in H1. destruct (g_index rm); [auto|discriminate]. }
+  assert (In1 : g_index rn = [] /\ len_of rn vs = imm_len rn).
+  { specialize (H1 _ (nth_error_In _ _ Hn)). cbn [no_index] in H1. unfold len_of, imm_len.
+    destruct (g_index rn); [|discriminate]. destruct (g_len rn); [auto|discriminate]. }
+  assert (In2 : g_index rm = [] /\ len_of rm vs' = imm_len rm).
+  { specialize (H1 _ (nth_error_In _ _ Hm)). cbn [no_index] in H1. unfold len_of, imm_len.
+    destruct (g_index rm); [|discriminate]. destruct (g_len rm); [auto|discriminate]. }
+  destruct In1 as [In1 L1']. destruct In2 as [In2 L2'].
   unfold address in Ha, Ha'. rewrite In1 in Ha. rewrite In2 in Ha'. cbn [addr_index] in Ha, Ha'.
-  apply Ok_inj in Ha. apply Ok_inj in Ha'. subst a a'.
+  apply Ok_inj in Ha. apply Ok_inj in Ha'. subst a a'. rewrite L1', L2' in *.
   assert (L1 : (Z.to_nat n < length (y_nodes y))%nat) by (apply nth_error_Some; congruence).
   assert (L2 : (Z.to_nat m < length (y_nodes y))%nat) by (apply nth_error_Some; congruence).
   assert (P : static_pair_ok y (Z.to_nat n) (Z.to_nat m) = true).
@@ -853,7 +879,7 @@ Qed.
 
 (* ---- the pinned code violates the property ----------------------------------------------------------------- *)
 
-Definition wit_reg (mode : Z) (inv : list Z) : cnode := NReg (Build_creg 0 0 0 0 0 256 [] 4 mode inv).
+Definition wit_reg (mode : Z) (inv : list Z) : cnode := NReg (Build_creg 0 0 0 0 0 256 [] (LImm 4) mode inv).
 Definition wit_wa : system := Build_system [wit_reg WA []] 1.
 Definition wit_raw : system := Build_system [wit_reg WT [1]; wit_reg WT [0]] 2.
 Definition wit_image : list Z := [255; 255; 255; 255; 255; 255; 255; 255].
@@ -903,7 +929,7 @@ Lemma own_write_refuted :
     m_write_and_cache true pinned y n r buf (snd (run true pinned y base image [] [] h)) = (Ok tt, s1) /\
     fst (m_cached_bytes true n r s1) <> Ok buf.
 Proof.
-  exists wit_wa, 256, wit_image, [OpValue 0], 0, (Build_creg 0 0 0 0 0 256 [] 4 WA []), [5; 0; 0; 0].
+  exists wit_wa, 256, wit_image, [OpValue 0], 0, (Build_creg 0 0 0 0 0 256 [] (LImm 4) WA []), [5; 0; 0; 0].
   eexists. split; [reflexivity|]. split; [vm_compute; reflexivity|].
   vm_compute. intros H. discriminate H.
 Qed.
@@ -914,11 +940,11 @@ Qed.
    second slot, declared as each other's invalidators *)
 Definition ex_bank : system :=
   Build_system [NVar 0;
-                NReg (Build_creg 0 0 0 0 0 256 [(0, 4)] 4 WT [2]);
-                NReg (Build_creg 0 0 0 0 0 260 [] 2 WA [1])] 3.
+                NReg (Build_creg 0 0 0 0 0 256 [(0, 4)] (LImm 4) WT [2]);
+                NReg (Build_creg 0 0 0 0 0 260 [] (LImm 2) WA [1])] 3.
 
 Lemma bank_address vs a :
-  address (Build_creg 0 0 0 0 0 256 [(0, 4)] 4 WT [2]) vs = Ok a -> a = 256 + nth 0 vs 0 * 4.
+  address (Build_creg 0 0 0 0 0 256 [(0, 4)] (LImm 4) WT [2]) vs = Ok a -> a = 256 + nth 0 vs 0 * 4.
 Proof.
   unfold address. cbn [g_index g_base addr_index Z.to_nat]. unfold chk_s.
   destruct (in_s 64 (nth 0 vs 0 * 4)); cbn [bind]; [|discriminate].
@@ -936,11 +962,12 @@ Proof.
   (destruct (Z.to_nat m) as [|[|[|km]]] eqn:Em; cbn [nth_error] in Hm; try discriminate Hm;
     try (destruct km; discriminate Hm));
   injection Hn as <-; injection Hm as <-.
-  - left. apply bank_address in Ha. apply bank_address in Ha'. cbn [g_len] in O1, O2. split; lia.
+  - left. apply bank_address in Ha. apply bank_address in Ha'. unfold len_of in *. cbn [g_len] in *.
+    repeat split; lia.
   - right. cbn [g_inval]. left. lia.
   - right. cbn [g_inval]. left. lia.
   - left. unfold address in Ha, Ha'. cbn [g_index g_base addr_index] in Ha, Ha'.
-    apply Ok_inj in Ha. apply Ok_inj in Ha'. split; lia.
+    apply Ok_inj in Ha. apply Ok_inj in Ha'. unfold len_of. cbn [g_len]. repeat split; lia.
 Qed.
 
 Lemma hypotheses_satisfiable :
@@ -950,3 +977,131 @@ Lemma hypotheses_satisfiable :
   let lu := access_log (run false cur ex_bank 256 wit_image [0] [] h) in
   (length lc < length lu)%nat.
 Proof. split; [exact declared_ex_bank|]. vm_compute. lia. Qed.
+
+(* ---- registers whose length is a variable (<pLength>) ------------------------------------------------------ *)
+
+Lemma peek_zlen d a l bs : 0 <= l -> peek d a l = Some bs -> zlen bs = l.
+Proof.
+  intros Hl. unfold peek. destruct (in_image d a l) eqn:E; [|discriminate].
+  apply in_image_bounds in E as [E0 E1]. intros H. injection H as <-.
+  pose proof (zlen_nonneg (d_mem d)) as Hm.
+  apply zlen_take. rewrite zlen_drop by lia. lia.
+Qed.
+
+Lemma entry_length y s n a l bs : Inv y s -> In ((n, a, l), bs) (c_cache s) -> zlen bs = l.
+Proof.
+  intros H Hin. unfold Inv in H. rewrite Forall_forall in H.
+  destruct (H _ Hin) as [[r [_ [_ [H0 _]]]] Hp]. unfold key_addr, key_len in *. cbn [fst snd] in *.
+  now apply (peek_zlen (c_dev s) a l).
+Qed.
+
+(* the bytes with_cache_or_read hands to the decoder - served from the cache or read from the device - have
+   exactly the register's current length *)
+Lemma cached_bytes_length y s n r bs s' :
+  Inv y s -> m_cached_bytes true n r s = (Ok bs, s') -> zlen bs = len_of r (c_vars s).
+Proof.
+  intros HI. unfold m_cached_bytes. rewrite bind_length.
+  remember (len_of r (c_vars s)) as l eqn:El.
+  destruct (l <? 0) eqn:Hlen; [discriminate|]. apply Z.ltb_ge in Hlen.
+  rewrite bind_address. destruct (address r (c_vars s)) as [a|e|]; try discriminate.
+  destruct (c_find (n, a, l) (c_cache s)) as [cb|] eqn:Hf.
+  - intros H. injection H as <- _. apply c_find_In in Hf. now apply (entry_length y s n a l cb).
+  - unfold m_read_and_cache. rewrite cdev_read_peek.
+    destruct (peek (c_dev s) a l) as [pb|] eqn:Hp; [|discriminate].
+    intros H. injection H as <- _. now apply (peek_zlen (c_dev s) a l).
+Qed.
+
+Lemma key_includes_length y s : Inv y s ->
+  (forall n a l bs, In ((n, a, l), bs) (c_cache s) -> zlen bs = l) /\
+  (forall n r a bs, address r (c_vars s) = Ok a ->
+     c_find (n, a, len_of r (c_vars s)) (c_cache s) = Some bs -> zlen bs = len_of r (c_vars s)) /\
+  (forall n r bs s', m_cached_bytes true n r s = (Ok bs, s') -> zlen bs = len_of r (c_vars s)).
+Proof.
+  intros HI. split; [|split].
+  - intros n a l bs. now apply (entry_length y s n a l bs).
+  - intros n r a bs _ Hf. apply c_find_In in Hf. now apply (entry_length y s n a _ bs).
+  - intros n r bs s'. now apply (cached_bytes_length y s n r bs s').
+Qed.
+
+(* a StringReg whose length is the variable node 0, its own pInvalidator (its keys of different lengths overlap),
+   and a static 2-byte IntReg on its bytes 2..3; each names the other *)
+Definition ex_plen : system :=
+  Build_system [NVar 0;
+                NReg (Build_creg 2 0 0 0 0 256 [] (LVar 0) WT [1; 2]);
+                NReg (Build_creg 0 0 0 0 0 258 [] (LImm 2) WA [1])] 3.
+
+Definition ex_plen_image : list Z := [65; 66; 67; 68; 69; 70; 71; 72].
+
+Lemma declared_ex_plen : Declared ex_plen.
+Proof.
+  intros n m rn rm vs vs' a a' Hn Hm Ha Ha' [O1 O2].
+  apply node_at_nth in Hn as [Hn0 Hn]. apply node_at_nth in Hm as [Hm0 Hm].
+  cbn [y_nodes ex_plen] in Hn, Hm.
+  destruct (Z.to_nat n) as [|[|[|kn]]] eqn:En; cbn [nth_error] in Hn; try discriminate Hn;
+    try (destruct kn; discriminate Hn);
+  (destruct (Z.to_nat m) as [|[|[|km]]] eqn:Em; cbn [nth_error] in Hm; try discriminate Hm;
+    try (destruct km; discriminate Hm));
+  injection Hn as <-; injection Hm as <-.
+  - right. cbn [g_inval In]. left. lia.
+  - right. cbn [g_inval In]. left. lia.
+  - right. cbn [g_inval In]. right. left. lia.
+  - left. unfold address in Ha, Ha'. cbn [g_index g_base addr_index] in Ha, Ha'.
+    apply Ok_inj in Ha. apply Ok_inj in Ha'. unfold len_of. cbn [g_len]. repeat split; lia.
+Qed.
+
+(* the length shrinks (8 -> 4) and grows again along the history, the register is written while short; both runs
+   print the same, the cached one with fewer device accesses *)
+Definition ex_plen_history : list cop :=
+  [OpValue 1; OpValue 1; OpSet 0 [4]; OpValue 1; OpValue 1; OpSet 0 [8]; OpValue 1;
+   OpSet 1 [97; 98; 99]; OpValue 1; OpSet 0 [2]; OpValue 1; OpSet 0 [8]; OpValue 1; OpValue 2; OpValue 2;
+   OpSet 2 [12593]; OpValue 1; OpSet 0 [4]; OpValue 1].
+
+Lemma plength_example :
+  Declared ex_plen /\
+  let xc := run true cur ex_plen 256 ex_plen_image [8] [] ex_plen_history in
+  let xu := run false cur ex_plen 256 ex_plen_image [8] [] ex_plen_history in
+  outputs xc = outputs xu /\ final_mem xc = final_mem xu /\
+  (* the values of node 1 along the history: ABCDEFGH (twice), ABCD (twice), ABCDEFGH, then written "abc",
+     "ab", "abc" (node 2 reads 99 = "c\0"), and after node 2 wrote "11": "ab11", "ab11" *)
+  outputs xc = [10; 0; 8; 65; 66; 67; 68; 69; 70; 71; 72;  10; 0; 8; 65; 66; 67; 68; 69; 70; 71; 72;  1; 0;
+                6; 0; 4; 65; 66; 67; 68;  6; 0; 4; 65; 66; 67; 68;  1; 0;
+                10; 0; 8; 65; 66; 67; 68; 69; 70; 71; 72;  1; 0;  5; 0; 3; 97; 98; 99;  1; 0;
+                4; 0; 2; 97; 98;  1; 0;  5; 0; 3; 97; 98; 99;  2; 0; 99;  2; 0; 99;  1; 0;
+                6; 0; 4; 97; 98; 49; 49;  1; 0;  6; 0; 4; 97; 98; 49; 49] /\
+  (length (access_log xc) < length (access_log xu))%nat.
+Proof. split; [exact declared_ex_plen|]. vm_compute. repeat split; lia. Qed.
+
+(* The own-key clause of [Declared] cannot be dropped for the code as it is: with the hypothesis worded as in the
+   property text ([DeclaredOthers]: pInvalidator for every node that can alter ANOTHER register's bytes) a
+   WriteThrough register whose length is a variable is not transparent - read it 8 bytes long, make it 4 bytes
+   long, write it (write_and_cache stores (nid, a, 4) and keeps (nid, a, 8)), make it 8 bytes long, read: the
+   cached run answers the block read before the write. *)
+Definition ex_plen_noself : system :=
+  Build_system [NVar 0; NReg (Build_creg 0 0 0 0 0 256 [] (LVar 0) WT [])] 2.
+
+Lemma others_ex_plen_noself : DeclaredOthers ex_plen_noself.
+Proof.
+  intros n m rn rm vs vs' a a' Hn Hm Hne.
+  apply node_at_nth in Hn as [Hn0 Hn]. apply node_at_nth in Hm as [Hm0 Hm].
+  cbn [y_nodes ex_plen_noself] in Hn, Hm. exfalso. apply Hne.
+  destruct (Z.to_nat n) as [|[|kn]] eqn:En; cbn [nth_error] in Hn; try discriminate Hn;
+    try (destruct kn; discriminate Hn).
+  destruct (Z.to_nat m) as [|[|km]] eqn:Em; cbn [nth_error] in Hm; try discriminate Hm;
+    try (destruct km; discriminate Hm).
+  lia.
+Qed.
+
+Lemma own_keys_need_self_invalidator :
+  exists y base image vars rej h, DeclaredOthers y /\
+    outputs (run true cur y base image vars rej h) <> outputs (run false cur y base image vars rej h).
+Proof.
+  exists ex_plen_noself, 256, wit_image, [8], [], [OpValue 1; OpSet 0 [4]; OpSet 1 [16909060]; OpSet 0 [8]; OpValue 1].
+  split; [exact others_ex_plen_noself|]. vm_compute. intros H. discriminate H.
+Qed.
+
+(* ... and [Declared] implies the hypothesis of the property text *)
+Lemma declared_others y : Declared y -> DeclaredOthers y.
+Proof.
+  intros HD n m rn rm vs vs' a a' Hn Hm Hne Ha Ha' Hov.
+  destruct (HD n m rn rm vs vs' a a' Hn Hm Ha Ha' Hov) as [[E _]|H]; [contradiction|exact H].
+Qed.
